@@ -735,6 +735,13 @@ class Intrinsics:
         return recv.index(x)
 
     def m_dict_get(self, P, recv, k, default=None):
+        if type(k).__name__ == 'EnumV' and not isinstance(k.idx, int):
+            # c14y: a symbolic enum member as key: branch over the keys of that enum (as `d[k]` does), else the default
+            for kk, vv in recv.items():
+                if isinstance(kk, tuple) and kk and kk[0] == '#enum' and kk[1] == k.cls.qualname:
+                    if P.branch(as_z3int(k.idx) == kk[2], f'key=={kk[2]}'):
+                        return vv
+            return default
         hk = P.hashable(k)
         return recv.get(hk, default)
 
